@@ -204,7 +204,10 @@ static bool nparty_once(std::vector<std::pair<std::string, std::string> > &pendi
 	auto propfail = [&](const std::string &k, const std::string &w) { fails.push_back(std::make_pair(k, w)); };
 	std::vector<bool> fr(n); for (size_t i = 0; i < n; i++) fr[i] = gen().coin();
 	// a scripted silence costs one library time-out per missing message: shorter time-outs for such runs
-	ForkResult FR = fork_parties(n, t, seed, silence ? aiounicast::aio_timeout_short : aiounicast::aio_timeout_long, 240, [&](size_t i, aiounicast *aiou, CachinKursawePetzoldShoupRBC *rbc, std::ostream &res) {
+	// (private messages that never come: 5 s; broadcasts that never come: 30 s, so that the party that waited for a private message
+	// is not itself timed out by the others)
+	std::set<size_t> expected_silent; for (auto &d : devs) if (!d.second.drop.empty() || d.second.answer == 2 || d.second.opening == 2) expected_silent.insert(d.first);
+	ForkResult FR = fork_parties(n, t, seed, silence ? aiounicast::aio_timeout_middle : aiounicast::aio_timeout_long, 300, [&](size_t i, aiounicast *aiou, CachinKursawePetzoldShoupRBC *rbc, std::ostream &res) {
 		JareckiLysyanskayaEDCF edcf(n, t, G.p, G.q, G.g, G.h, mpz_sizeinbase(G.p, 2), mpz_sizeinbase(G.q, 2));
 		mpz_t a; mpz_init(a); std::ostringstream err;
 		script_ulong(fr[i] ? 1UL : 0UL);
@@ -213,9 +216,13 @@ static bool nparty_once(std::vector<std::pair<std::string, std::string> > &pendi
 			// the deviating party runs the honest code; its broadcasts are rewritten by value: the share revealed to answer the complaint
 			// of a tampered recipient, and the opening a_i of its coin share
 			Deviation d = devs.at(i); JareckiLysyanskayaRVSS *rv = edcf.rvss; mpz_srcptr q = G.q;
-			tamper_broadcast()->decide = [d, rv, i, q](mpz_srcptr pl, mpz_ptr rep) -> int {
+			size_t nn = n;
+			tamper_broadcast()->decide = [d, rv, i, q, nn](mpz_srcptr pl, mpz_ptr rep) -> int {
+				// complaint ignored: the announcement `who` (the victim's index) becomes the end marker n; the receivers stop reading there
+				if (d.answer == 3 && mpz_sgn(rv->C_ik[i][0]) != 0) { std::set<size_t> vs(d.wrong); vs.insert(d.drop.begin(), d.drop.end());
+					for (size_t v : vs) if (mpz_cmp_ui(pl, v) == 0) { mpz_set_ui(rep, nn); return 1; } }
 				if (mpz_sgn(pl) == 0) return 0;
-				if (d.answer) { std::set<size_t> vs(d.wrong); vs.insert(d.drop.begin(), d.drop.end());
+				if (d.answer == 1 || d.answer == 2) { std::set<size_t> vs(d.wrong); vs.insert(d.drop.begin(), d.drop.end());
 					for (size_t v : vs) if (mpz_cmp(pl, rv->alpha_ij[i][v]) == 0) { if (d.answer == 2) return 2; mpz_add_ui(rep, pl, 1); mpz_mod(rep, rep, q); return 1; } }
 				if (d.opening && mpz_cmp(pl, rv->a_i) == 0) { if (d.opening == 2) return 2; mpz_add_ui(rep, pl, 1); mpz_mod(rep, rep, q); return 1; }
 				return 0; };
@@ -226,10 +233,11 @@ static bool nparty_once(std::vector<std::pair<std::string, std::string> > &pendi
 		res << "qual="; for (size_t k = 0; k < edcf.rvss->Qual.size(); k++) res << (k ? "," : "") << edcf.rvss->Qual[k]; res << "\n";
 		res << "C="; for (size_t j = 0; j < n; j++) res << (j ? "," : "") << hx(edcf.rvss->C_ik[j][0]); res << "\n";
 		// the party's private shares of every dealer and its view of all commitments
+		for (size_t k = 0; k < n; k++) res << "deal" << k << "=" << hx(edcf.rvss->alpha_ij[i][k]) << "," << hx(edcf.rvss->hatalpha_ij[i][k]) << "\n";     // the shares this party dealt
 		for (size_t j = 0; j < n; j++) { res << "sh" << j << "=" << hx(edcf.rvss->alpha_ij[j][i]) << "," << hx(edcf.rvss->hatalpha_ij[j][i]) << "\n";
 			res << "cm" << j << "="; for (size_t k = 0; k <= t; k++) res << (k ? "," : "") << hx(edcf.rvss->C_ik[j][k]); res << "\n"; }
 		{ std::string l = err.str(); if (l.size() > 1500 && !getenv("VERIF_DEBUG")) l = l.substr(l.size() - 1500); std::replace(l.begin(), l.end(), '\n', '~'); res << "log=" << l << "\n"; }
-	}, devs.empty() ? 0 : &devs, G.q);
+	}, devs.empty() ? 0 : &devs, G.q, silence ? aiounicast::aio_timeout_very_short : 0);
 	std::string fs; for (size_t i = 0; i < n; i++) fs += faulty[i] ? '1' : '0';
 	for (auto &d : devs) fs += " deviation of P" + std::to_string(d.first) + ": " + d.second.str();
 	std::string ctx = "n=" + std::to_string(n) + " t=" + std::to_string(t) + " faulty=" + fs + " seed=" + std::to_string(seed) + " p=" + hx(G.p) + " q=" + hx(G.q) + " g=" + hx(G.g) + " h=" + hx(G.h);
@@ -237,8 +245,13 @@ static bool nparty_once(std::vector<std::pair<std::string, std::string> > &pendi
 		for (size_t j = 0; j < n; j++) fprintf(stderr, "  P%zu sh%zu=%s cm%zu=%s\n", i, j, res_get(FR.text[i], "sh" + std::to_string(j)).c_str(), j, res_get(FR.text[i], "cm" + std::to_string(j)).c_str());
 		fprintf(stderr, "  P%zu a=%s coin=%s\n", i, res_get(FR.text[i], "a").c_str(), res_get(FR.text[i], "coin").c_str()); }
 	auto finish = [&]() {
+		// a dealer that ignores a complaint stays in Qual and its victim keeps the wrong share (finding nparty-unanswered-complaint):
+		// the consequences in such a scripted run are reported under that key
+		bool ignored = false; for (auto &d : devs) if (d.second.answer == 3) ignored = true;
+		if (ignored) for (auto &f : fails) if (f.first == "nparty-coins-differ" || f.first == "nparty-stale-share" || f.first == "nparty-coin-not-sum" || (f.first == "nparty-honest-fails" && !FR.timing_trouble())) f.first = "nparty-unanswered-complaint";
 		if (fails.empty()) { for (auto &r : recs) { fputs(r.c_str(), stdout); } return true; }
-		if (FR.timing_trouble()) { fprintf(stderr, "c17: nparty inconclusive (time-out expired in the run; %s): %s\n", fails[0].first.c_str(), ctx.c_str()); pending = fails; return false; }
+		if (FR.timing_trouble(expected_silent)) { fprintf(stderr, "c17: nparty inconclusive (time-out expired in the run; %s): %s\n", fails[0].first.c_str(), ctx.c_str()); pending = fails; return false; }
+		for (auto &r : recs) fputs(r.c_str(), stdout);       // the views of a conclusive run are compared with the model in any case
 		for (auto &f : fails) verif::propfail(f.first, f.second);
 		return true; };
 	if (FR.timed_out) { propfail("nparty-timeout", "n-party Flip did not finish within the wall-clock limit: " + ctx); return finish(); }
@@ -252,7 +265,7 @@ static bool nparty_once(std::vector<std::pair<std::string, std::string> > &pendi
 		if (first) { qual = res_get(FR.text[i], "qual"); coin = res_get(FR.text[i], "coin"); first = false; }
 		else if (qual != res_get(FR.text[i], "qual") || coin != res_get(FR.text[i], "coin")) {
 			propfail("nparty-coins-differ", "honest parties disagree: P" + std::to_string(i) + " coin=" + res_get(FR.text[i], "coin") + " qual=" + res_get(FR.text[i], "qual") + " vs coin=" + coin + " qual=" + qual + ": " + ctx);
-			return finish();
+			/* go on: the views are still recorded and the share oracles evaluated */
 		}
 	}
 	if (first) return finish();
@@ -314,6 +327,40 @@ static bool nparty_once(std::vector<std::pair<std::string, std::string> > &pendi
 			mpz_clear(aj); mpz_clear(bj); }
 		recs.push_back("REC flipN " + hx(G.p) + " " + hx(G.q) + " " + hx(G.g) + " " + hx(G.h) + " " + (members.empty() ? "_" : members) + " coin:" + res_get(FR.text[i], "coin") + "\n");
 	}
+	// ---- each honest party's view of the members of Qual -> its coin (model: flipN_party), without scripted silence
+	if (known && !silence) {
+		auto opening_of = [&](size_t j) -> std::string {        // what member j broadcast as its opening
+			mpz_t a, b; mpz_init(a); mpz_init(b); mpz_set_str(a, res_get(FR.text[j], "a").c_str(), 16); mpz_set_str(b, res_get(FR.text[j], "hata").c_str(), 16);
+			if (lib_faulty[j]) { mpz_add_ui(a, a, 1); if (fr[j]) mpz_add_ui(b, b, 1); }
+			if (devs.count(j) && devs.at(j).opening == 1) { mpz_add_ui(a, a, 1); mpz_mod(a, a, G.q); }
+			std::string r = hx(a) + "|" + hx(b); mpz_clear(a); mpz_clear(b); return r; };
+		for (size_t i = 0; i < n; i++) if (!faulty[i]) {
+			std::string members; bool okv = true;
+			for (auto &js : Q) { if (js.empty()) continue; size_t j = strtoul(js.c_str(), 0, 10);
+				std::string cm = res_get(FR.text[i], "cm" + std::to_string(j)), own = res_get(FR.text[i], "sh" + std::to_string(j)), shs;
+				for (auto &ks : Q) { if (ks.empty()) continue; size_t k = strtoul(ks.c_str(), 0, 10); if (k == i) continue;
+					std::vector<std::string> sk = split(res_get(FR.text[k], "sh" + std::to_string(j)), ','); if (sk.size() != 2) { okv = false; break; }
+					shs += (shs.empty() ? "" : ",") + hx((unsigned long)k) + ":" + sk[0] + ":" + sk[1]; }
+				if (cm.empty() || own.empty()) okv = false;
+				members += (members.empty() ? "" : ";") + hx((unsigned long)j) + "|" + cm + "|" + opening_of(j) + "|" + own + "|" + (shs.empty() ? "_" : shs); }
+			if (okv && !members.empty()) recs.push_back("REC flipN_view " + hx(G.p) + " " + hx(G.q) + " " + hx(G.g) + " " + hx(G.h) + " " + hx((unsigned long)t) + " " + hx((unsigned long)i) + " " + members + " coin:" + res_get(FR.text[i], "coin") + "\n");
+		}
+		// ---- RVSS::Share at every honest party for a scripted dealer: received share, complaints, answers -> qualified?, final share
+		for (auto &dv : devs) { size_t d = dv.first; const Deviation &D = dv.second; if (D.answer == 2 || !D.drop.empty()) continue;
+			std::string answers; std::set<size_t> vs(D.wrong);
+			if (D.answer != 3) for (size_t v : vs) { std::vector<std::string> sv = split(res_get(FR.text[d], "deal" + std::to_string(v)), ','); if (sv.size() != 2) continue;
+				mpz_t a; mpz_init(a); mpz_set_str(a, sv[0].c_str(), 16); if (D.answer == 1) { mpz_add_ui(a, a, 1); mpz_mod(a, a, G.q); }
+				answers += (answers.empty() ? "" : ",") + hx((unsigned long)v) + ":" + hx(a) + ":" + sv[1]; mpz_clear(a); }
+			for (size_t i = 0; i < n; i++) if (!faulty[i]) {
+				std::vector<std::string> sv = split(res_get(FR.text[d], "deal" + std::to_string(i)), ','); if (sv.size() != 2) continue;
+				mpz_t a; mpz_init(a); mpz_set_str(a, sv[0].c_str(), 16); if (vs.count(i)) { mpz_add_ui(a, a, 1); mpz_mod(a, a, G.q); }
+				bool inq = std::find(Q.begin(), Q.end(), std::to_string(d)) != Q.end();
+				recs.push_back("REC rvss_dealer " + hx(G.p) + " " + hx(G.q) + " " + hx(G.g) + " " + hx(G.h) + " " + hx((unsigned long)t) + " " + hx((unsigned long)i) + " " +
+					res_get(FR.text[i], "cm" + std::to_string(d)) + " " + hx(a) + "," + sv[1] + " " + hx((unsigned long)vs.size()) + " " + (answers.empty() ? "_" : answers) + " " +
+					(inq ? "qual:" + res_get(FR.text[i], "sh" + std::to_string(d)) : "disqualified") + "\n");
+				mpz_clear(a); }
+		}
+	}
 	mpz_clear(sum); mpz_clear(v);
 	fprintf(stderr, "c17: nparty %s wall=%.2fs\n", ctx.substr(0, 40).c_str(), FR.wall);
 	return finish();
@@ -326,8 +373,9 @@ static void nparty(const Grp &G, size_t n, size_t t, const std::vector<bool> &fa
 		if (wall && attempt >= 1) { fprintf(stderr, "c17: nparty n=%zu: wall-clock limit hit twice, giving up (inconclusive)\n", n); return; } }
 	// a wrong coin value (not a failure to complete, not a disagreement) that repeats in every attempt is reported even though
 	// time-outs expired in all of them
-	for (auto &f : all.back()) {
-		bool every = (f.first == "nparty-coin-not-sum" || f.first == "nparty-stale-share" || f.first == "nparty-coin-out-of-range");
+	bool scripted_silence = false; for (auto &d : devs) if (!d.second.drop.empty() || d.second.answer == 2 || d.second.opening == 2) scripted_silence = true;
+	if (!scripted_silence) for (auto &f : all.back()) {
+		bool every = (f.first == "nparty-coin-not-sum" || f.first == "nparty-stale-share" || f.first == "nparty-coin-out-of-range" || f.first == "nparty-unanswered-complaint");
 		for (auto &a : all) { bool has = false; for (auto &g : a) if (g.first == f.first) has = true; every = every && has; }
 		if (every) verif::propfail(f.first, f.second + " [repeated in 3 attempts, all with expired time-outs]");
 	}
@@ -454,7 +502,8 @@ int main(int argc, char **argv) {
 			size_t d4 = gen().below(4), d5 = gen().below(5);
 			cfgs = { {2, 0, {}, -1, {}, false, 0, 0}, {3, 1, {}, -1, {}, false, 0, 0}, {3, 1, {(size_t)gen().below(3)}, -1, {}, false, 0, 0}, {5, 2, {1, 3}, -1, {}, false, 0, 0},
 				{4, 1, {}, (long)d4, subset(4, 1, d4), false, 0, 1},        // wrong share to one victim, correct answer, mismatching opening -> reconstruction
-				{5, 2, {}, (long)d5, subset(5, 2, d5), false, 1, 0} };      // wrong share to two victims, incorrect answer -> disqualified
+				{5, 2, {}, (long)d5, subset(5, 2, d5), false, 1, 0},        // wrong share to two victims, incorrect answer -> disqualified
+				{4, 1, {}, (long)d4, subset(4, 1, d4), false, 3, 1} };      // wrong share to one victim, complaint ignored, mismatching opening (known finding)
 		} else {
 			for (size_t n = 2; n <= 7; n++) { size_t t = (n - 1) / 2;
 				cfgs.push_back({n, t, {}, -1, {}, false, 0, 0});
@@ -466,7 +515,8 @@ int main(int argc, char **argv) {
 					size_t d = gen().below(n);
 					cfgs.push_back({n, t, {}, (long)d, subset(n, k, d), false, 0, 1});       // the stale-share pattern
 					cfgs.push_back({n, t, {}, (long)d, subset(n, k, d), false, 0, 0});       // correct answer, correct opening
-					cfgs.push_back({n, t, {}, (long)d, subset(n, k, d), false, 1, (int)gen().below(2)}); }
+					cfgs.push_back({n, t, {}, (long)d, subset(n, k, d), false, 1, (int)gen().below(2)});
+					cfgs.push_back({n, t, {}, (long)d, subset(n, k, d), false, 3, (int)gen().below(2)}); }     // complaints ignored
 				size_t d = gen().below(n);
 				cfgs.push_back({n, t, {}, (long)d, {}, false, 0, 1});                         // mismatching opening only
 				if (n <= 5) {
